@@ -10,6 +10,10 @@ missing_await, unused comprehension variable) is spec/FixReplace.tla + FixReplac
 
 Part C (the fixes as operations on the TEXT: line range of the rewritten statement, the lines around it, where an
 ignore comment is inserted) is spec/FixLayout.tla + FixLayoutTrace.tla, driven by c16c.py.
+
+Part D (what the fix producers decide and generate: does a diagnostic offer a replacement, and is the replacement the
+intended semantic change only -- judged by executing the function before/after) is spec/FixShapes.tla +
+FixShapesTrace.tla, driven by c16d.py.
 """
 from __future__ import annotations
 
@@ -165,6 +169,10 @@ def run(check: core.Check) -> None:
     from . import c16c
 
     c16c.run_part_c(check, quick)
+    # part D: what the fix producers decide and generate, over the statement shapes that matter for each of them
+    from . import c16d
+
+    c16d.run_part_d(check, quick)
 
 
 def replay(check: core.Check, witness: dict) -> None:
@@ -172,6 +180,11 @@ def replay(check: core.Check, witness: dict) -> None:
         from . import c16b
 
         c16b.replay_part_b(check, witness)
+        return
+    if witness["case"].get("part") == "shapes":
+        from . import c16d
+
+        c16d.replay_part_d(check, witness)
         return
     if witness["case"].get("part") == "layout":
         from . import c16c
